@@ -76,7 +76,8 @@ func executeCompaction(db *DB) (compactionMetadata *proto.CompactionMetadata, er
 	writer, err := sstables.NewSSTableStreamWriter(
 		sstables.WriteBasePath(writeFolder),
 		sstables.WithKeyComparator(skiplist.BytesComparator{}),
-		sstables.BloomExpectedNumberOfElements(numRecords))
+		// the inputs can be empty altogether (e.g. the result of compacting only tombstones), the filter needs at least one
+		sstables.BloomExpectedNumberOfElements(max(numRecords, 1)))
 	if err != nil {
 		return nil, err
 	}
